@@ -187,7 +187,7 @@ func cmdCacheRT(args []tok) string {
 	rest := args[2:]
 	_, rest = splitAt(rest, "S")
 	setup, hist := splitAt(rest, "H")
-	if mode == "OVER" {
+	if mode == "OVER" || mode == "GEN2" {
 		setup, hist = splitAt(rest, "M")
 	}
 	dir, _ := ioutil.TempDir("", "verif-cachert")
@@ -208,6 +208,19 @@ func cmdCacheRT(args []tok) string {
 		var c1 flowCache
 		c1.load(proto, filepath.Join(dir, "absent"))
 		c1.history(small)
+		if err := c1.dump(path); err != nil {
+			return "DUMP-ERROR"
+		}
+		var c flowCache
+		c.load(proto, path)
+		return "T:" + cacheDigest(proto, c.dump) + " | " + c.history(h2)
+	}
+	if mode == "GEN2" {
+		// a second generation: restart on the saved file, re-announcements, save again over the same file, restart again
+		mods, h2 := splitAt(hist, "H")
+		var c1 flowCache
+		c1.load(proto, path)
+		c1.history(mods)
 		if err := c1.dump(path); err != nil {
 			return "DUMP-ERROR"
 		}
